@@ -82,7 +82,7 @@ def _count_ri(c, P):
 
 def _summary(name, P):
     contract(name, extern=False, props=[], ensures=lambda c, P=P: _pool_ri(c, P) + _count_ri(c, P), assigns=lambda c, P=P: _cache_region(c, P),
-             note='ASSUMED summary of the fill pipeline (determinism and correctness of its result are checked by the bounded stand-ins of C01/C02/C08): writes only the cache arrays of the processor')
+             note='ASSUMED summary of the fill pipeline (determinism and correctness of its result are checked by the bounded stand-ins of C01/C02/C08): writes only the cache arrays of the processor; basic processor: leaves at most kMaxCacheEntries transitions (proved on addTransition, the only function that increments the count; assumed for the functions that call it in loops)')
     # the static pipeline functions have no `this`: the processor they work for is ghost state set by init()'s contract
     _reg.REG[name].call_site_reads = ('ghost',)
 
